@@ -14,7 +14,7 @@
   `CoreVM.runToCompletion`; the steps that are not refined (new-action / `Start` / conflict resolution sites, head movement in
   general) are not in the relation.
 -/
-import NemoVerif.Lemmas.LifetimeCoreVM8g
+import NemoVerif.Lemmas.LifetimeCoreVM8h
 namespace NemoVerif.Lifetime.Refine
 open NemoVerif NemoVerif.CoreVM NemoVerif.CoreIndex NemoVerif.Lifetime
 
@@ -46,6 +46,16 @@ inductive RefinedOpStep : VM → VM → Prop
       cfgOfInst f vm = .ok cfg vm → getHead? (f, h) vm = .ok (some hd) vm →
       ¬ (hd.pos ≥ cfg.elements.size ∨ hd.status = .inactive) → cfg.elements[hd.pos]! = .sendOp spec →
       EventFrame f spec → NameRO f (hd.pos + 1) →
+      slideStep fuel f h vm = .ok r vm' → RefinedOpStep vm vm'
+  | goto (fuel : Nat) (f : FUid) (h : HUid) (cfg : FlowCfg) (hd : Head) (e : Expr) (label : String) (r : Bool × List Key) (vm vm' : VM) :
+      cfgOfInst f vm = .ok cfg vm → getHead? (f, h) vm = .ok (some hd) vm →
+      ¬ (hd.pos ≥ cfg.elements.size ∨ hd.status = .inactive) → cfg.elements[hd.pos]! = .goto e label →
+      ExprFrame f e → (∀ p, NameRO f p) →
+      slideStep fuel f h vm = .ok r vm' → RefinedOpStep vm vm'
+  | assign (fuel : Nat) (f : FUid) (h : HUid) (cfg : FlowCfg) (hd : Head) (key : String) (e : Expr) (r : Bool × List Key) (vm vm' : VM) :
+      cfgOfInst f vm = .ok cfg vm → getHead? (f, h) vm = .ok (some hd) vm →
+      ¬ (hd.pos ≥ cfg.elements.size ∨ hd.status = .inactive) → cfg.elements[hd.pos]! = .assign key e →
+      ExprFrame f e → NameRO f (hd.pos + 1) →
       slideStep fuel f h vm = .ok r vm' → RefinedOpStep vm vm'
   | labelOther (fuel : Nat) (f : FUid) (h : HUid) (cfg : FlowCfg) (hd : Head) (name : String) (r : Bool × List Key) (vm vm' : VM) :
       cfgOfInst f vm = .ok cfg vm → getHead? (f, h) vm = .ok (some hd) vm →
@@ -141,6 +151,12 @@ theorem refinedOpStep_is_op (hν : Function.Injective ν) (hφ : Function.Inject
       rcases hop with e | e <;> subst e <;> trivial
   | send fuel f h cfg hd spec r _ _ hcfg hhd hpos hel hev hro hr =>
     obtain ⟨ha, w'⟩ := slideStep_send_frame ν φ fuel f h vm vm' cfg hd spec r hcfg hhd hpos hel hw hev hro hr
+    exact ⟨w', [], (by intro op hop; cases hop), by rw [ha]; rfl⟩
+  | goto fuel f h cfg hd e label r _ _ hcfg hhd hpos hel hev hro hr =>
+    obtain ⟨ha, w'⟩ := slideStep_goto_frame ν φ fuel f h vm vm' cfg hd e label r hcfg hhd hpos hel hw hev hro hr
+    exact ⟨w', [], (by intro op hop; cases hop), by rw [ha]; rfl⟩
+  | assign fuel f h cfg hd key e r _ _ hcfg hhd hpos hel hev hro hr =>
+    obtain ⟨ha, w'⟩ := slideStep_assign_frame ν φ hν fuel f h vm vm' cfg hd key e r hcfg hhd hpos hel hw hev hro hr
     exact ⟨w', [], (by intro op hop; cases hop), by rw [ha]; rfl⟩
   | labelOther fuel f h cfg hd name r _ _ hcfg hhd hpos hel hname hro hr =>
     rw [slideStep_label fuel f h vm cfg hd _ hcfg hhd hpos hel] at hr
